@@ -121,6 +121,8 @@ def main(argv=None):
     sys.setrecursionlimit(10000)
     if a.tier not in ("quick", "thorough"):
         a.tier = "quick"
+    # every abstract-interpreter instance has a wall-clock budget (interp.call_function): generous, but finite
+    os.environ.setdefault("PYSCSI_SA_TIME_LIMIT", "600" if a.tier == "quick" else "14400")
     if a.replay:
         with open(a.replay) as f:
             rep = json.load(f)
